@@ -519,7 +519,18 @@ def _summarise_core(ip, st, fr, H, N, var, affine, region, cont, runner, is_iter
             base = T.lsub(lo, {var: N - 1})
             tv = vsub(tv, {}, {var: N - 1 - v}, Fi)
         elif not st.F.prove_eq((lo - base) - v * ln) and not Fi.prove_eq((lo - base) - v * ln):
-            raise Undecided("element stride %r differs from element length %r" % (lo - base, ln))
+            # a prefix of every element of a wider stride is written (`block[..8]` of 16-byte blocks):
+            # the element is the new prefix followed by what the cell held there before the loop
+            S = T.lsub(lo, {var: ONE}) - base
+            if var in S.symbols() or not Fi.prove_eq((lo - base) - v * S) or not Fi.prove_ge(S - ln - 1):
+                raise Undecided("element stride %r differs from element length %r" % (lo - base, ln))
+            sl = st.fork()
+            sl.F = Fi.copy()
+            old = ip.load(sl, Target(loc[0], loc[1] + (("br", lo + ln, S - ln),)), log=False)
+            if old[0] != "bytes":
+                raise Undecided("element stride %r differs from element length %r" % (lo - base, ln))
+            tv = vbytes(T.bnorm(tv[1] + old[1], Fi))
+            ln = S
         m = T.bnorm((("m", var, ZERO, N, ln, tv[1]),), st.F)
         ip.store(sp, Target(loc[0], loc[1] + (("br", base, N * ln),)), vbytes(m))
     for loc, a in affine.items():
